@@ -277,7 +277,9 @@ def make_filter_classes():
             if pm:
                 w.sim.sleep(self.vrng.choice(pm) / 1000)
             st = self.vbeh.get('stall')
-            if st and seq is not None and st.get('inc', self.vinc) == self.vinc and seq == st['seq'] and not getattr(self, '_stalled', False):
+            # 'seq': stall on the frame with that origin sequence number; 'after_n': on this filter's own n-th input (a late joiner's first frames have any seq)
+            hit = (self.vn == st['after_n']) if st and 'after_n' in st else (st and seq == st['seq'])
+            if st and seq is not None and st.get('inc', self.vinc) == self.vinc and hit and not getattr(self, '_stalled', False):
                 self._stalled = True
                 self._log('stall-begin', seq=seq, secs=st['secs'])
                 w.sim.sleep(st['secs'])
